@@ -5,6 +5,7 @@ import LolHtml.Gen.Tags
 import LolHtml.Ref.Tags
 import LolHtml.Lemmas.NameHash
 import LolHtml.Lemmas.Guard
+import LolHtml.Lemmas.Sim
 /-!
 # C03 — name hashes, ambiguity guard, tree-builder simulator
 
@@ -347,5 +348,89 @@ theorem C03_guard_inert (cfg : TagCfg) (es : List Ev)
       have h2 : t ≠ cfg.gFrameset := fun hh => he.2 (by rw [hh])
       simp [Guard.run, Guard.trackStartTag, h1, h2, ih']
     | «end» t => simp [Guard.run, Guard.trackEndTag, ih']
+
+
+/-! ## 4. Simulator invariants
+
+`Sim.stepTag` (Lemmas/Sim.lean) is one tag as the lexer drives the simulator: `feedbackForStartTag`
+or `feedbackForEndTag`, and if that answers `RequestLexeme k`, `runCallback k` at once on the same
+tag. `Sim.run` iterates it and records the state and feedback after every tag. The hash and the
+lexeme view of an event are arbitrary and unrelated, so the statements cover every tag sequence
+whatsoever. -/
+
+open LolHtml.Lemmas.Sim (Inv FbOk erase eraseR)
+
+/-- **Simulator invariants**, for any tables, any mode and any tag sequence: after every tag the
+namespace stack is non-empty with `current_ns` on top and `Html` at the bottom; every
+`SetAllowCdata b` carries `b = (current_ns ≠ Html)`; no request is left pending; and a run can only
+be stopped by the guard's ambiguity error in strict mode — in particular the
+`debug_assert!(false, "Namespace stack should always have at least one item")` of `leave_ns`
+(mod.rs:191) and the `expect_tag!` assertions are unreachable. -/
+theorem C03_sim_invariants (cfg : TagCfg) (strict : Bool) (evs : List TagEvent) :
+    (∀ p ∈ (Sim.run cfg (Sim.new strict) evs).1,
+        p.1.nsStack ≠ [] ∧ p.1.nsStack.head? = some p.1.currentNs ∧ p.1.nsStack.getLast? = some .html ∧
+        (∀ b, p.2 = .setAllowCdata b → b = (p.1.currentNs != .html)) ∧
+        (∀ k, p.2 ≠ .requestLexeme k) ∧ p.1.strict = strict) ∧
+    (∀ e, (Sim.run cfg (Sim.new strict) evs).2 = some e → strict = true ∧ ∃ t, e = .ambiguity t) := by
+  have := Lemmas.Sim.run_good cfg evs (Sim.new strict) (Lemmas.Sim.inv_new strict)
+  refine ⟨?_, this.2⟩
+  intro p hp
+  obtain ⟨hi, hf, hs⟩ := this.1 p hp
+  refine ⟨?_, hi.top, hi.bottom, hf.1, hf.2, hs⟩
+  intro hnil
+  have := hi.top
+  rw [hnil] at this
+  cases this
+
+/-- The single-step form (usable as an inductive invariant by the parser proofs). -/
+theorem C03_sim_step (cfg : TagCfg) (s : Sim) (h : Inv s) (ev : TagEvent) :
+    (∃ s' fb, s.stepTag cfg ev = .ok (s', fb) ∧ Inv s' ∧ FbOk s' fb ∧ s'.strict = s.strict) ∨
+    (s.strict = true ∧ ev.view.isStart = true ∧ s.stepTag cfg ev = .error (.ambiguity ev.hash)) :=
+  Lemmas.Sim.step_good cfg s h ev
+
+/-- Without `<svg>`/`<math>` start tags the namespace stays `Html` throughout: the stack stays
+`[Html]`, and the feedback is exactly the table lookup (`get_text_type_adjustment`) for start tags
+and `None` for end tags. -/
+theorem C03_sim_html_only (cfg : TagCfg) (strict : Bool) (evs : List TagEvent)
+    (h : ∀ ev ∈ evs, ev.view.isStart = true → ev.hash ≠ cfg.svg ∧ ev.hash ≠ cfg.math) :
+    let r := Sim.run cfg (Sim.new strict) evs
+    (∀ p ∈ r.1, p.1.nsStack = [.html] ∧ p.1.currentNs = .html) ∧
+    (∀ i (hi : i < r.1.length), ∃ ev, evs[i]? = some ev ∧
+        r.1[i].2 = if ev.view.isStart then textTypeAdjustment cfg ev.hash else .none) := by
+  have gen : ∀ (evs : List TagEvent) (s : Sim), s.nsStack = [.html] → s.currentNs = .html →
+      (∀ ev ∈ evs, ev.view.isStart = true → ev.hash ≠ cfg.svg ∧ ev.hash ≠ cfg.math) →
+      (∀ p ∈ (Sim.run cfg s evs).1, p.1.nsStack = [.html] ∧ p.1.currentNs = .html) ∧
+      (∀ i (hi : i < (Sim.run cfg s evs).1.length), ∃ ev, evs[i]? = some ev ∧
+        (Sim.run cfg s evs).1[i].2 = if ev.view.isStart then textTypeAdjustment cfg ev.hash else .none) := by
+    intro evs
+    induction evs with
+    | nil => intro s _ _ _; simp [Sim.run]
+    | cons ev evs ih =>
+      intro s hs hc hall
+      rcases Lemmas.Sim.step_html cfg s hs hc ev (hall ev (by simp)) with ⟨g, he⟩ | ⟨-, -, he⟩
+      · have ih' := ih { s with guard := g } hs hc (fun x hx => hall x (by simp [hx]))
+        simp only [Sim.run, he]
+        constructor
+        · intro p hp
+          rcases List.mem_cons.mp hp with rfl | hp
+          · exact ⟨hs, hc⟩
+          · exact ih'.1 p hp
+        · intro i hi
+          cases i with
+          | zero => exact ⟨ev, rfl, rfl⟩
+          | succ i =>
+            simp only [List.length_cons] at hi
+            obtain ⟨ev', h1, h2⟩ := ih'.2 i (by omega)
+            exact ⟨ev', by simpa using h1, by simpa using h2⟩
+      · simp [Sim.run, he]
+  exact gen evs (Sim.new strict) rfl rfl h
+
+/-- **Strict = non-strict at the simulator**: if the strict run is not refused, the non-strict run
+goes through the same namespace states and produces the same feedback, tag by tag (`erase` forgets
+the guard state and the `strict` flag, which nothing else reads). -/
+theorem C03_sim_strict_eq_nonstrict (cfg : TagCfg) (evs : List TagEvent)
+    (h : (Sim.run cfg (Sim.new true) evs).2 = none) :
+    Sim.run cfg (Sim.new false) evs = ((Sim.run cfg (Sim.new true) evs).1.map eraseR, none) :=
+  Lemmas.Sim.run_erase cfg evs (Sim.new true) h
 
 end LolHtml.Thm.C03
